@@ -37,7 +37,11 @@ type Case struct {
 	NestedDirs bool   `json:"nested"`
 	// Colliding: the two hooks have names that look alike once path separators and dots are replaced (x/h.sh, x-h.sh)
 	Colliding bool `json:"colliding,omitempty"`
-	Steps      []Step `json:"steps"`
+	// Tmp: how the temporary directory is given to the operator (--tmp-dir): "" as an absolute path of an existing
+	// directory without the bootstrap step; otherwise through EnsureTempDirectory as "absolute" or "relative" (to the
+	// operator's working directory) path of an "existing" or "new" directory
+	Tmp   string `json:"tmp,omitempty"`
+	Steps []Step `json:"steps"`
 }
 
 var fileStates = []string{"untouched", "untouched", "untouched", "untouched", "valid", "valid", "valid", "truncated", "wrongtype", "deleted"}
@@ -45,6 +49,7 @@ var fileStates = []string{"untouched", "untouched", "untouched", "untouched", "v
 func gen(t *rapid.T) Case {
 	c := Case{NestedDirs: rapid.Bool().Draw(t, "nested")}
 	c.Colliding = rapid.IntRange(0, 3).Draw(t, "colliding") == 0
+	c.Tmp = rapid.SampledFrom([]string{"", "", "absolute-existing", "absolute-new", "relative-existing", "relative-existing", "relative-new"}).Draw(t, "tmp")
 	n := rapid.IntRange(1, 5).Draw(t, "n")
 	for i := 0; i < n; i++ {
 		s := Step{Hook: rapid.IntRange(0, 1).Draw(t, "hook")}
@@ -173,7 +178,26 @@ func runCase(c Case) (ev.Info, error) {
 			return info, fmt.Errorf("harness: %v", err)
 		}
 	}
+	if c.Tmp != "" {
+		info.Labels = append(info.Labels, "tmp-dir:"+c.Tmp)
+		if strings.HasSuffix(c.Tmp, "-new") {
+			env.TmpDir = filepath.Join(filepath.Dir(env.TmpDir), "tmp-new")
+		}
+		env.TmpArg = env.TmpDir
+		if strings.HasPrefix(c.Tmp, "relative") {
+			cwd, err := os.Getwd()
+			if err != nil {
+				return info, fmt.Errorf("harness: %v", err)
+			}
+			if env.TmpArg, err = filepath.Rel(cwd, env.TmpDir); err != nil {
+				return info, fmt.Errorf("harness: %v", err)
+			}
+		}
+	}
 	if err := env.Assemble(); err != nil {
+		if c.Tmp != "" {
+			return info, fmt.Errorf("initialization fails with the temporary directory given as %s path (%s): %v", c.Tmp, env.TmpArg, err)
+		}
 		return info, fmt.Errorf("harness: assemble: %v", err)
 	}
 	env.Start()
